@@ -36,6 +36,15 @@ THEOREMS = [
     "C13_woken_run_resumed",
     "C13_idle_run_reloaded_by_send",
     "C13_idle_mark_shape",
+    "C13_every_log_prefix_is_a_stop_point",
+    "C13_replay_every_log_prefix",
+    "C13_replay_prefix_closed_exit_kept",
+    "C13_unreplayable_prefix_stays_unreplayable",
+    "C13_start_picks_complete",
+    "C13_no_state_marked_failed",
+    "C13_legacy_ctx_resumed",
+    "C13_tick_table_is_the_append_log",
+    "C13_tick_append_shape",
 ]
 LEAN_TARGETS = ["WfProps.C13"]
 EXPLANATION = (
@@ -66,6 +75,7 @@ EXPLANATION = (
     "stream_workflow_ticks of both stores against what append_tick was given (a second run interleaved); a chain persisting more than two pages of ticks restarted from the sqlite and memory "
     "stores at stops beyond one and two pages and after its end (same result and state store as uninterrupted; the restart must replay every persisted tick once, in order). The harness' "
     "notion of 'the persisted log' is the record of append_tick calls, not a read of the store. "
+    "Every prefix / any log / the table: C13_every_log_prefix_is_a_stop_point (at most one tick is persisted per runner action and the log is never rewritten, so the first k ticks of any run's log are the whole log of that run stopped after a prefix of its schedule) and C13_replay_every_log_prefix (C13_replay_reproduces_state restated over log prefixes); for arbitrary tick lists C13_replay_prefix_closed_exit_kept (replay of a++b succeeding implies replay of a succeeds and the whole is its continuation; an exit command is never forgotten; exit_command is always one of the three exit commands and only the idle release maps to resume) and C13_unreplayable_prefix_stays_unreplayable; C13_start_picks_complete (no eligible run overlooked), C13_no_state_marked_failed, C13_legacy_ctx_resumed. Model TickTable (sqlite append_tick's COALESCE(MAX(sequence) of the run, -1)+1 statement, the memory store's existing[-1].sequence+1 / 0 rule, get_ticks of both): C13_tick_table_is_the_append_log — after ANY interleaved history of appends each run's rows are what was appended, in call order, numbered 0..n-1, the same in both stores, and stream_ticks over them is complete; C13_tick_append_shape pins the constants and statement shapes re-extracted from both stores. Tie: `c13table` op against get_ticks of the real stores on every paging history and on short histories over 1..5 interleaved runs; search: C13/stored_log_is_not_the_append_log on both readers of both stores. "
     "The full server stack (WorkflowServer always puts IdleReleaseDecorator around PersistenceDecorator, and the start query reads the idle marker that layer maintains): model RowMark "
     "(idle announcement sets the marker; a returned send_event clears it, reloading a released run first; release; process stop) and restartHandler (marker set: the row is skipped, else restartRun). "
     "C13_woken_run_not_idle: after ANY history, once a send_event has returned and the run has not announced idleness again, the row does not carry the marker; C13_woken_run_resumed: such a row is "
@@ -91,7 +101,7 @@ ASSUMPTIONS = suite.ENGINE_ASSUMPTIONS + [
     "postgres / DBOS / agent-data stores are not run (their paginated stream_ticks are separate code with the same page loop)",
     "RowMark: memory / sqlite store calls never yield, so an idle announcement, a send_event and a release are atomic with respect to each other (the interleavings with stores that suspend are C26 / C36, model Lifecycle); the harness' idle-marker events are its own observations (WorkflowIdleEvent at the innermost adapter, return of the idle layer's send_event, _release_idle_handler dropping the run), never a read of the handler row",
     "full-stack family: no timers (retry delays, waiter timeouts) -- a run woken by a timer of the dead process is C14's subject and is classified :internal_wakeup; stop points at which an event sent with ctx.send_event is persisted while its sender's step result is not are skipped in this family (counted; see the report on C13/wrong_result_after_event_sent_again_by_reexecuted_step)",
-    "TickStream: a run's sequence column is strictly increasing (append_tick assigns MAX(sequence)+1 per run under one writer; checked on every generated log)",
+    "TickStream / TickTable: one writer per store (append_tick calls do not overlap: sqlite runs the INSERT in one transaction, the memory store never yields); under that, the strictly increasing sequence column is proved from the writer's statement (C13_tick_table_is_the_append_log) and checked on every generated log",
 ]
 TRUSTED_EXTRA = [
     "harness/server/stack.py, harness/server/restart.py: in-process WorkflowServer wiring (with or without the idle-release layer), store views with a kill switch and a record of every append_tick call (the reference log), tick-log truncation, stops at a persisted tick or at the next quiet instant, call-through spies on the idle layer's send_event / _release_idle_handler",
@@ -555,13 +565,20 @@ def store_pages(case: dict, out: Outcome, ops: list[str], exp: list[str], owner:
             order = ["r1"] * n + ["r2"] * other
             rng.shuffle(order)
             want: dict[str, list] = {"r1": [], "r2": [], "never": []}
+            hist: list[tuple[str, int]] = []   # the append_tick calls in call order: (run, content code of the tick)
+            codes: dict[str, int] = {}
             for rid in order:
                 i = len(want[rid])
                 tick = T.TickAddEvent(event=ET.T5(uid=(1000 if rid == "r1" else 500000) + i, k=i % 7)) if i % 5 else T.TickIdleCheck()
                 td = WorkflowTickAdapter.dump_python(tick, mode="json")
                 await inner.append_tick(rid, td)
                 want[rid].append(json.loads(json.dumps(td)))
+                code = ((1000 if rid == "r1" else 500000) + i) if i % 5 else 0
+                codes[json.dumps(td, sort_keys=True)] = code
+                hist.append((rid, code))
             got["want"] = want
+            got["hist"] = hist
+            got["codes"] = codes
             for rid in want:
                 rd: dict[str, Any] = {}
                 for name, fn in (("stream_ticks", lambda: _collect(inner.stream_ticks(rid))), ("get_ticks", lambda: inner.get_ticks(rid))):
@@ -609,6 +626,17 @@ def store_pages(case: dict, out: Outcome, ops: list[str], exp: list[str], owner:
         d2 = seq_diff(typed_want, got[rid]["typed"])
         if d2 is not None and rows_diff(want[rid], got[rid]["stream_ticks"]) is None:
             out.violations.append(Violation(f"C13/stream_workflow_ticks_{d2[0]}:{kind}", f"{kind} store, {len(want[rid])} ticks: stream_workflow_ticks {d2[1]}", payload))
+        # K: the table after this history of append_tick calls (both stores): get_ticks' (sequence, content) rows against the model
+        if "hist" in got:
+            rnum = {"r1": 1, "r2": 2, "never": 3}
+            ops.append("c13table %s %d %s" % ("sql" if kind == "sqlite" else "mem", rnum[rid],
+                                              enc.lst(["%d %d" % (rnum[r_], c_) for r_, c_ in got["hist"]])))
+            rows = got[rid]["get_ticks"]
+            exp.append("raised" if any(isinstance(x, str) for x in rows) else
+                       enc.lst(["%d:%d" % (x.sequence, got["codes"].get(json.dumps(x.tick_data, sort_keys=True), -1)) for x in rows]))
+            owner.append(payload)
+            out.count("K:c13table:" + kind)
+            out.count("K:c13table:appends", len(got["hist"]))
         # K: the paginated reader of the sqlite store against the model, on the sequence column as it is in the table
         if kind == "sqlite" and "seqs" in got:
             ops.append("stream %d %s" % (P, enc.lst([str(x) for x in got["seqs"][rid]])))
@@ -617,6 +645,81 @@ def store_pages(case: dict, out: Outcome, ops: list[str], exp: list[str], owner:
             owner.append(payload)
             out.count("K:stream")
             out.count("K:stream:rows", len(got["seqs"][rid]))
+
+
+def table_corr(case: dict, out: Outcome, ops: list[str], exp: list[str], owner: list) -> None:
+    """K (+S): a short history of append_tick calls over 1..5 runs in a generated interleaving, on one store; every run's get_ticks
+    and stream_ticks rows as (sequence, content) against the model's `c13table`; S: per run, the rows are what was appended, numbered 0..n-1"""
+    kind = case["kind"]
+    hist: list[tuple[int, int]] = [tuple(x) for x in case["hist"]]  # type: ignore[misc]
+    payload = {"table": dict(case)}
+    got: dict[int, Any] = {}
+
+    async def main(loop: Any) -> None:
+        inner, db_path = Stack.make_store(kind, restart._fast_db_path() if kind == "sqlite" else None)
+        try:
+            for r_, c_ in hist:
+                await inner.append_tick("run-%d" % r_, {"type": "c13-table", "code": c_})
+            for r_ in sorted({r for r, _ in hist} | {99}):
+                rd: dict[str, Any] = {}
+                for name, fn in (("get_ticks", lambda: inner.get_ticks("run-%d" % r_)), ("stream_ticks", lambda: _collect(inner.stream_ticks("run-%d" % r_)))):
+                    try:
+                        rd[name] = [(x.sequence, x.tick_data.get("code", -1)) for x in await fn()]
+                    except Exception as e:
+                        rd[name] = f"<raised {type(e).__name__}: {e}>"
+                got[r_] = rd
+        finally:
+            if db_path:
+                for suf in ("", "-wal", "-shm"):
+                    try:
+                        os.unlink(db_path + suf)
+                    except OSError:
+                        pass
+
+    run_virtual(main, max_time=1_000_000.0)
+    out.evaluations += 1
+    nruns = len({r for r, _ in hist})
+    out.count(f"table:{kind}:runs={nruns}")
+    out.count("table:appends", len(hist))
+    out.nontrivial(("table", kind, tuple(hist)))
+    for r_, rd in got.items():
+        want = [(i, c) for i, c in enumerate([c for rr, c in hist if rr == r_])]
+        for reader in ("get_ticks", "stream_ticks"):
+            rows = rd[reader]
+            if rows != want:
+                if isinstance(rows, str):
+                    what = "raised"
+                elif [c for _, c in rows] != [c for _, c in want]:
+                    what = "content"
+                else:
+                    what = "numbering"
+                out.violations.append(Violation(f"C13/stored_log_is_not_the_append_log:{what}:{reader}:{kind}",
+                                                f"{kind} store, {len(hist)} append_tick calls over {nruns} runs ({hist[:12]}…): {reader}('run-{r_}') = "
+                                                f"{str(rows)[:300]}, appended (numbered from 0): {str(want)[:300]}", payload))
+        ops.append("c13table %s %d %s" % ("sql" if kind == "sqlite" else "mem", r_, enc.lst(["%d %d" % (a, b) for a, b in hist])))
+        rows = rd["get_ticks"]
+        exp.append("raised" if isinstance(rows, str) else enc.lst(["%d:%d" % (a, b) for a, b in rows]))
+        owner.append(payload)
+        out.count("K:c13table:" + kind)
+        out.count("K:c13table:appends", len(hist))
+
+
+def gen_table_case(rng: random.Random, kind: str) -> dict:
+    nruns = rng.choice([1, 2, 2, 3, 5])
+    n = rng.choice([0, 1, rng.randint(2, 12), rng.randint(4, 40), rng.randint(4, 40)])
+    shape = rng.choice(["uniform", "bursts", "one_hot"])
+    hist = []
+    cur = rng.randint(1, nruns)
+    for i in range(n):
+        if shape == "uniform":
+            cur = rng.randint(1, nruns)
+        elif shape == "bursts":
+            if rng.random() < 0.3:
+                cur = rng.randint(1, nruns)
+        else:
+            cur = 1 if rng.random() < 0.8 else rng.randint(1, nruns)
+        hist.append([cur, rng.choice([0, 0, rng.randint(1, 9), 1000 + i])])
+    return {"kind": kind, "hist": hist}
 
 
 async def _collect(agen: Any) -> list:
@@ -1354,6 +1457,9 @@ def replay_case(case: dict, out: Outcome, ops: list[str], exp: list[str], owner:
     if "store_pages" in case or "long_chain" in case:
         paging_case(case, out, ops, exp, owner)
         return
+    if "table" in case:
+        table_corr(case["table"], out, ops, exp, owner)
+        return
     if "crash" not in case:
         return
     c = case["crash"]
@@ -1362,6 +1468,15 @@ def replay_case(case: dict, out: Outcome, ops: list[str], exp: list[str], owner:
         all_prefixes(spec, seed, kind, out, ops, exp, owner, "replay", only=ks or None, only_modes=c.get("modes"))
     else:
         second_restarts(spec, seed, kind, _FixedInts(ks), 1, out, ops, exp, owner)
+
+
+TABLE_CORPUS = [
+    {"kind": "sqlite", "hist": []},
+    {"kind": "memory", "hist": []},
+    {"kind": "sqlite", "hist": [[1, 0], [2, 0], [1, 0], [1, 5], [2, 7], [3, 0], [1, 0]]},
+    {"kind": "memory", "hist": [[1, 0], [2, 0], [1, 0], [1, 5], [2, 7], [3, 0], [1, 0]]},
+    {"kind": "sqlite", "hist": [[2, 4]] * 6 + [[1, 4]]},
+]
 
 
 def run(env: Env) -> Outcome:
@@ -1418,6 +1533,11 @@ def _run(env: Env) -> Outcome:
         for _ in range(env.budget(2, 12) if kind == "sqlite" else env.budget(1, 4)):
             store_pages({"kind": kind, "n": rng.randint(0, 3 * P + P // 2), "other": rng.choice([0, 2, rng.randint(0, 2 * P)]),
                          "seed": rng.randrange(1 << 30)}, out, ops, exp, owner)
+    # ---- store level: short append histories over 1..5 interleaved runs (the table as the append log), both stores
+    for case in TABLE_CORPUS:
+        table_corr(case, out, ops, exp, owner)
+    for i in range(env.budget(12, 120)):
+        table_corr(gen_table_case(rng, "sqlite" if i % 2 else "memory"), out, ops, exp, owner)
     # ---- generated stream
     n_mem = env.budget(5, 110)
     n_sql = env.budget(1, 30)
@@ -1449,7 +1569,7 @@ def _run(env: Env) -> Outcome:
     # ---- handler selection
     pick_corr(env, out, env.budget(8, 150), ops, exp, owner)
     # ---- malformed lines
-    bad = ["stream 0 1 1", "stream 3 2 1", "restart x", "rowmark 2 I", "rowmark 1 Q", "restartrow 1 I x", "ctx 1 2 P 0 1 TQ", "pick 1 1 0 0 1 1 1 bogus _ 0", "replay 1000 1000 P 0 2 TI", "status extra"]
+    bad = ["c13table sql 1 2 1 1", "c13table pg 1 0", "c13table mem x 0", "stream 0 1 1", "stream 3 2 1", "restart x", "rowmark 2 I", "rowmark 1 Q", "restartrow 1 I x", "ctx 1 2 P 0 1 TQ", "pick 1 1 0 0 1 1 1 bogus _ 0", "replay 1000 1000 P 0 2 TI", "status extra"]
     ops += bad
     exp += ["bad-op"] * len(bad)
     owner += [None] * len(bad)
@@ -1462,7 +1582,7 @@ def _run(env: Env) -> Outcome:
     mo = [canon_pick(m) if o.startswith("pick ") and m != "bad-op" else m for o, m in zip(ops, mo)] + mo[len(ops):]
     exp = [m if e is None else e for e, m in zip(exp, mo)] + exp[len(mo):]
     out.disagreements_checked += len(ops)
-    out.traces_validated += sum(1 for o in ops if o.startswith(("restart ", "ctx ", "pick ", "stream ")))
+    out.traces_validated += sum(1 for o in ops if o.startswith(("restart ", "ctx ", "pick ", "stream ", "c13table ")))
     d = diff_streams("replay", ops, mo, exp)
     if d is not None:
         a, b = d.model_out, d.impl_out
